@@ -191,6 +191,8 @@ impl UnixTerminal {
 
     /// Close all descriptors free all the resources
     fn dispose(&mut self) -> Result<(), Error> {
+        #[cfg(feature = "verif-hooks")]
+        crate::verif::emit(|| r#"{"ev":"dispose_enter"}"#.to_string());
         self.frames_drop();
 
         // flush currently queued output and submit the epilogue
@@ -229,6 +231,8 @@ impl UnixTerminal {
             }
         }
 
+        #[cfg(feature = "verif-hooks")]
+        crate::verif::emit(|| r#"{"ev":"dispose_synced"}"#.to_string());
         // disable signal handler
         self.signal_delivery.handle().close();
 
@@ -238,6 +242,8 @@ impl UnixTerminal {
             rustix::termios::OptionalActions::Flush,
             &self.termios_saved,
         )?;
+        #[cfg(feature = "verif-hooks")]
+        crate::verif::emit(|| r#"{"ev":"termios_restored"}"#.to_string());
 
         Ok(())
     }
@@ -391,6 +397,19 @@ impl Terminal for UnixTerminal {
     #[tracing::instrument(name="[UnixTerminal.poll]", level="trace", skip_all, fields(?timeout))]
     fn poll(&mut self, timeout: Option<Duration>) -> Result<Option<TerminalEvent>, Error> {
         self.write_queue.flush()?;
+        #[cfg(feature = "verif-hooks")]
+        crate::verif::emit(|| {
+            format!(
+                r#"{{"ev":"poll_enter","tmo":"{}","chunks":{},"evq":{}}}"#,
+                match timeout {
+                    None => "none",
+                    Some(dur) if dur.is_zero() => "zero",
+                    Some(_) => "finite",
+                },
+                self.write_queue.chunks_count(),
+                self.events_queue.len()
+            )
+        });
 
         let mut first_loop = true;
         let timeout_instant = timeout.map(|dur| Instant::now() + dur);
@@ -433,8 +452,28 @@ impl Terminal for UnixTerminal {
                 }
             };
 
+            #[cfg(feature = "verif-hooks")]
+            crate::verif::emit(|| {
+                format!(
+                    r#"{{"ev":"select","delay":"{}","want_w":{},"w":{},"r":{},"s":{},"k":{}}}"#,
+                    match delay {
+                        None => "none",
+                        Some(dur) if dur.is_zero() => "zero",
+                        Some(_) => "finite",
+                    },
+                    !self.write_queue.is_empty(),
+                    tty.is_writable(),
+                    tty.is_readable(),
+                    signal.is_readable(),
+                    waker.is_readable()
+                )
+            });
             // process pending output
             if tty.is_writable() {
+                #[cfg(feature = "verif-hooks")]
+                let verif_offered = self.write_queue.as_slice().len();
+                #[cfg(feature = "verif-hooks")]
+                crate::verif::emit(|| format!(r#"{{"ev":"tty_write_start","offered":{}}}"#, verif_offered));
                 let tee = self.tee.as_mut();
                 let send = self.write_queue.consume_with(|slice| {
                     let size = guard_io(self.tty.write(slice), 0)?;
@@ -442,11 +481,22 @@ impl Terminal for UnixTerminal {
                     Ok::<_, Error>(size)
                 })?;
                 self.stats.send += send;
+                #[cfg(feature = "verif-hooks")]
+                crate::verif::emit(|| {
+                    format!(
+                        r#"{{"ev":"tty_write","offered":{},"written":{},"chunks":{}}}"#,
+                        verif_offered,
+                        send,
+                        self.write_queue.chunks_count()
+                    )
+                });
             }
 
             // process signals
             if signal.is_readable() {
                 for signal in self.signal_delivery.pending() {
+                    #[cfg(feature = "verif-hooks")]
+                    crate::verif::emit(|| format!(r#"{{"ev":"signal","sig":{}}}"#, signal));
                     match signal {
                         SIGWINCH => {
                             if self.size.is_none() {
@@ -466,9 +516,15 @@ impl Terminal for UnixTerminal {
 
             // process waker
             if waker.is_readable() {
+                #[cfg(feature = "verif-hooks")]
+                crate::verif::emit(|| r#"{"ev":"waker_ready"}"#.to_string());
                 let mut buf = [0u8; 1024];
                 if guard_io(self.waker_read.read(&mut buf), 0)? != 0 {
                     self.events_queue.push_back(TerminalEvent::Wake);
+                    #[cfg(feature = "verif-hooks")]
+                    crate::verif::emit(|| {
+                        format!(r#"{{"ev":"waker_read","evq":{}}}"#, self.events_queue.len())
+                    });
                 }
             }
 
@@ -476,6 +532,8 @@ impl Terminal for UnixTerminal {
             if tty.is_readable() {
                 let mut buf = [0u8; 1024];
                 let recv = guard_io(self.tty.read(&mut buf), 0)?;
+                #[cfg(feature = "verif-hooks")]
+                crate::verif::emit(|| format!(r#"{{"ev":"tty_read","n":{}}}"#, recv));
                 if recv == 0 {
                     return Err(Error::Quit);
                 }
@@ -501,10 +559,27 @@ impl Terminal for UnixTerminal {
                 }
             }
 
+            #[cfg(feature = "verif-hooks")]
+            crate::verif::emit(|| format!(r#"{{"ev":"loop_end","evq":{}}}"#, self.events_queue.len()));
             // indicate that first loop was executed
             first_loop = false;
         }
 
+        #[cfg(feature = "verif-hooks")]
+        crate::verif::emit(|| {
+            format!(
+                r#"{{"ev":"poll_exit","kind":"{}","evq":{},"chunks":{}}}"#,
+                match self.events_queue.front() {
+                    None => "none",
+                    Some(TerminalEvent::Wake) => "wake",
+                    Some(TerminalEvent::Resize(_)) => "resize",
+                    Some(TerminalEvent::Key(_)) => "key",
+                    Some(_) => "other",
+                },
+                self.events_queue.len(),
+                self.write_queue.chunks_count()
+            )
+        });
         Ok(self.events_queue.pop_front())
     }
 
